@@ -2,6 +2,7 @@
 writes evidence and returns the exit code."""
 import json
 import os
+import re
 
 from . import build
 from .run import Agg, Shard, finish, run_shards, Inconclusive, VERIF
@@ -9,6 +10,21 @@ from .run import Agg, Shard, finish, run_shards, Inconclusive, VERIF
 REGISTRY = {}
 COMMON = ["common.cpp"]
 NOLEAK = {"ASAN_OPTIONS": "detect_leaks=0:abort_on_error=0:exitcode=66", "UBSAN_OPTIONS": "print_stacktrace=1"}
+
+
+ENV_OK = re.compile(r"^(VERIF_.*|LANG|LANGUAGE|LC_.*|TZ|TZDIR|MALLOC_.*|GLIBC.*|LIBC_.*|ASAN_OPTIONS|UBSAN_OPTIONS|LSAN_OPTIONS|TMPDIR|HOME|PATH|LD_.*|GCOV_.*|POSIXLY_CORRECT|NLSPATH|OUTPUT_CHARSET|CHARSET)$")
+
+
+def run_env(agg, shards):
+    """runs the shards; if the code under test consulted environment variables the harness does not know (seen by the interposed getenv),
+    runs the same shards again with each such variable set - a behaviour switch hidden in the environment is then exercised as well"""
+    agg.add_shards(run_shards(shards))
+    names = sorted(n for n in agg.distinct.get("environment_variables_consulted", ()) if not ENV_OK.match(n))
+    agg.env_names = names
+    for n in names[:6]:
+        for val in ("1", "0"):
+            extra = [Shard(s.exe, s.args, "%s[%s=%s]" % (s.label, n, val), env=dict(s.env, **{n: val}), timeout=s.timeout, wrapper=s.wrapper) for s in shards if not s.wrapper]
+            agg.add_shards(run_shards(extra))
 
 
 def prop(pid):
@@ -42,7 +58,7 @@ def c13(tier, seed):
         shards.append(Shard(exe_pl, ["--seed", seed, "--shard", 100 + i, "--n", n_fork, "--prec", p], "exit/%s/%d" % (p, i)))
     for s in shards:
         s.args = [str(a) for a in s.args]
-    agg.add_shards(run_shards(shards))
+    run_env(agg, shards)
     floors = [("at least 1000 valid decorated strings", agg.count("valid_decorated_strings") >= 1000),
               ("at least 200 of them with adjacent separators", agg.count("valid_with_adjacent_separators") >= 200),
               ("at least 500 invalid strings", agg.count("invalid_strings") >= 500),
@@ -155,7 +171,7 @@ def pde_check(pid, sols, classes, tier, seed, quick=(120, 8), thorough=(4000, 16
     agg = Agg(pid, tier, seed)
     cases, points = quick if tier == "quick" else thorough
     exe = pde_exe()
-    agg.add_shards(run_shards(pde_shards(exe, sols, seed, cases, points, classes)))
+    run_env(agg, pde_shards(exe, sols, seed, cases, points, classes))
     floors = [("every solution in scope contributed samples", agg.ndistinct("solutions") == len(sols)),
               ("at least 100 comparisons per solution", agg.count("comparisons") >= 100 * len(sols)),
               ("at least half of the freshly drawn parameter vectors non-trivial", agg.count("parameter_vectors_all_distinct_nonzero") * 2 >= agg.count("fresh_parameter_vectors")),
@@ -228,7 +244,7 @@ def c09(tier, seed):
         shards += pde_shards(pde_exe("opt"), sols, seed + 1, cases // 2, points, "source,exact,grad", dl=True, tag="O2:")
         shards += pde_shards(pde_exe("opt3"), sols, seed + 2, cases // 4, points, "source,exact,grad", dl=True, tag="O3:")
         shards += pde_shards(pde_exe("clang"), sols, seed + 3, cases // 4, points, "source,exact,grad", dl=True, tag="clang-O2:")
-    agg.add_shards(run_shards(shards))
+    run_env(agg, shards)
     cov = pde_cov(agg, sols, "Precision regime: |lib - ref| <= K u_S e with K_double = %g, K_longdouble = %g; double and long double compared at identical "
                              "double-representable inputs; every value checked finite." % (K_D, K_L))
     dl = {}
@@ -255,7 +271,7 @@ def c20(tier, seed):
         for i in range(chunks):
             n = cases // chunks
             shards.append(Shard(exe, [str(a) for a in ["--seed", seed, "--prec", p, "--case0", i * n, "--cases", n, "--points", points]], "reduce/%s/%d" % (p, i), timeout=3600))
-    agg.add_shards(run_shards(shards))
+    run_env(agg, shards)
     worst = {}
     for st in agg.stats.get("ratio", []):
         worst[st["k"]] = max(worst.get(st["k"], 0), round(st["max"], 4))
@@ -284,7 +300,7 @@ def c08(tier, seed):
             for i in range(k):
                 shards.append(Shard(exe, [str(a) for a in ["--seed", seed, "--shard", i * 2 + (p == "l") + (100 if what == "cp" else 0), "--what", what, "--prec", p, "--cases", n]],
                                     "%s/%s/%d" % (what, p, i), timeout=3600))
-    agg.add_shards(run_shards(shards))
+    run_env(agg, shards)
     worst = {}
     for st in agg.stats.get("ratio", []):
         worst[st["k"]] = max(worst.get(st["k"], 0), round(st["max"], 3))
@@ -354,7 +370,7 @@ def c10(tier, seed):
     # one and the same call 2^18 (thorough: 2^24) times in a row on eight solutions: state that builds up with the number of calls
     for i in range(2 if tier == "quick" else 4):
         shards.append(Shard(hist_exe("exc"), ["--mode", "mill", "--steps", str(1 << 18 if tier == "quick" else 1 << 24), "--seed", str(seed), "--shard", str(910 + i)], "exc/mill/%d" % i, env=NOLEAK, timeout=7200))
-    agg.add_shards(run_shards(shards))
+    run_env(agg, shards)
     cov = hist_cov(agg, "Focus: evaluator calls (45%).")
     cov["identical_calls_in_a_row(mill shards)"] = agg.count("identical_calls_in_a_row")
     floors = [("at least 5000 evaluator calls", agg.count("evaluations") >= 5000), ("at least 1000 repeated calls", agg.count("repeated_evaluations") >= 1000),
@@ -369,7 +385,7 @@ def c11(tier, seed):
     shards = hist_shards(seed, "store", steps, ne, npl)
     for fl in ("exc", "plain"):
         shards.append(Shard(hist_exe(fl), ["--mode", "sweep", "--seed", str(seed), "--shard", "900"], fl + "/sweep", env=NOLEAK))
-    agg.add_shards(run_shards(shards))
+    run_env(agg, shards)
     cov = hist_cov(agg, "Plus the systematic sweep: for every solution (35) and every one of its parameter names, set that name alone to a unique value and compare the whole snapshot; "
                         "then init_param / purge / sanity_check / display_param.")
     cov["sweep_names_set_individually"] = agg.count("sweep_names")
@@ -389,7 +405,7 @@ def c12(tier, seed):
         shards.append(Shard(hist_exe(fl), ["--mode", "many", "--steps", "300" if tier == "quick" else "3000", "--seed", str(seed), "--shard", "950"], fl + "/many-handles", env=NOLEAK, timeout=7200))
     for i in range(parts):
         shards.append(Shard(exe, ["--mode", "exhaustive", "--maxlen", str(maxlen), "--parts", str(parts), "--shard", str(i), "--seed", str(seed)], "plain/exhaustive/%d" % i, env=NOLEAK, timeout=7200))
-    agg.add_shards(run_shards(shards))
+    run_env(agg, shards)
     cov = hist_cov(agg, "Bounded-exhaustive part: ALL sequences of length <= %d over the alphabet {init(A,s1), init(B,s1), init(B,s2), init(A,s2), select(A), select(B), set(p,v1), set(p,v2), "
                         "get(p), name, dim, list} (s1 = euler_1d, s2 = heateq_2d_steady_const) that start with an init, each executed from the empty registry in a forked child and "
                         "compared step by step; sequences selecting a handle that does not exist are C16's and are skipped." % maxlen)
@@ -415,7 +431,7 @@ def c16(tier, seed):
     for fl in ("exc", "plain"):
         for p in ("d", "l"):
             shards.append(Shard(hist_exe(fl), ["--mode", "preinit", "--prec", p, "--seed", str(seed)], "%s/preinit/%s" % (fl, p), env=NOLEAK))
-    agg.add_shards(run_shards(shards))
+    run_env(agg, shards)
     cov = hist_cov(agg, "Focus: failing calls (25%%: select of an unknown handle, init with an unknown solution name on an existing and on a new handle) injected at random positions; "
                         "after each, registry, selection, listing and the full parameter snapshot must equal the model's unchanged state and the history continues. Plus the "
                         "pre-init part: every solution-dependent API function (all %d evaluator overloads + 15 others) on an empty registry in both builds and both precisions." % 117)
@@ -440,7 +456,7 @@ def c14(tier, seed):
     for fl in ("plain", "exc", "ndebug"):
         for p in ("d", "l"):
             shards.append(Shard(cat_exe(fl), ["--mode", "c14", "--prec", p, "--seed", str(seed)], "%s/c14/%s" % (fl, p), env=NOLEAK))
-    agg.add_shards(run_shards(shards))
+    run_env(agg, shards)
     unknown = sorted(agg.distinct.get("entries_unknown_to_spec", []))
     missing = sorted(agg.distinct.get("spec_entries_missing_from_build", []))
     cov = {"evaluations": agg.count("evaluator_calls") + agg.count("steps"), "distinct_nontrivial": agg.ndistinct("entries_checked"),
@@ -464,7 +480,7 @@ def c15(tier, seed):
         for p in ("d", "l"):
             for i in range(parts):
                 shards.append(Shard(cat_exe(fl), ["--mode", "c15", "--prec", p, "--seed", str(seed), "--shard", str(i), "--parts", str(parts), "--repeat", "12000" if tier == "quick" else "70000"], "%s/c15/%s/%d" % (fl, p, i), env=NOLEAK, timeout=3600))
-    agg.add_shards(run_shards(shards))
+    run_env(agg, shards)
     cov = {"evaluations": agg.count("evaluator_calls"), "distinct_nontrivial": agg.ndistinct("unprovided_pairs"),
            "rule": "every (solution, overload, precision) triple of the 117-entry API table (harness/spec/api_table.def) that spec/catalogue.txt does not list as provided or unspecified, "
                    "each called at 4 random argument tuples: result bit-equal to Scalar(-1.33), a line containing 'MASA ERROR' printed, full parameter snapshot and registry "
@@ -501,7 +517,7 @@ def c17(tier, seed):
         exe = build.build_bin(fl, "mon_cabi", CABI_SRCS, whole_archive=True)
         for i in range(n // 2):
             shards.append(Shard(exe, ["--seed", str(seed), "--shard", str(i + (50 if fl == "exc" else 0)), "--steps", str(steps)], "%s/cabi/%d" % (fl, i), env=NOLEAK, timeout=3600))
-    agg.add_shards(run_shards(shards))
+    run_env(agg, shards)
     defined = c_symbols(build.build_lib("plain"))
     known = set(cw_table()) | set(C_CORE)
     unknown = sorted(set(defined) - known)
@@ -595,7 +611,7 @@ def c19(tier, seed):
         vg.append((build.build_bin("plain", "mon_cabi", CABI_SRCS, whole_archive=True), ["--seed", S(seed), "--shard", "803", "--steps", "2500"], "vg/cabi"))
     for exe, args, label in vg:
         shards.append(Shard(exe, args, label, wrapper=VALGRIND, timeout=7200))
-    agg.add_shards(run_shards(shards))
+    run_env(agg, shards)
     growth = agg.stats.get("heap_growth_1000_reinits", [])
     cov = {"evaluations": agg.count("api_operations") + agg.count("steps"), "distinct_nontrivial": agg.shards + agg.count("ordered_init_pairs"),
            "rule": "API histories run under ASan+UBSan+LSan (reports fatal, detect_leaks=1, detect_stack_use_after_return=1, strict_string_checks=1) and valgrind memcheck "
